@@ -24,6 +24,12 @@ pub open spec fn wf_segment(s: Segment) -> bool decreases s {
 pub open spec fn wf_segments(v: Seq<Segment>) -> bool decreases v {
     forall|i: int| 0 <= i < v.len() ==> wf_segment(#[trigger] v[i])
 }
+pub open spec fn has_union(s: Segment) -> bool decreases s {
+    match s { Segment::Selectors(v) => true, Segment::Descendant(b) => has_union(*b), Segment::Selector(sel) => false }
+}
+pub open spec fn union_free(segs: Seq<Segment>) -> bool {
+    forall|i: int| 0 <= i < segs.len() ==> !has_union(#[trigger] segs[i])
+}
 pub open spec fn wf_filter(f: Filter) -> bool decreases f {
     match f {
         Filter::Or(v) => forall|i: int| 0 <= i < v@.len() ==> wf_filter(#[trigger] v@[i]),
@@ -34,14 +40,17 @@ pub open spec fn wf_filter(f: Filter) -> bool decreases f {
 pub open spec fn wf_atom(a: FilterAtom) -> bool decreases a {
     match a {
         FilterAtom::Filter { expr, not } => wf_filter(*expr),
-        FilterAtom::Test { expr, not } => wf_test(*expr),
+        // RFC 9535 2.4.3: a function used as a test expression must be LogicalType (or NodesType, which no built-in returns)
+        FilterAtom::Test { expr, not } => wf_test(*expr) && (*expr matches Test::Function(tf) ==> fn_is_logical(*tf)),
         FilterAtom::Comparison(c) => wf_cmp(*c),
     }
 }
 pub open spec fn wf_test(t: Test) -> bool decreases t {
     match t {
-        Test::RelQuery(v) => wf_segments(v@),
-        Test::AbsQuery(q) => wf_segments(q.segments@),
+        // (no multi-selector segment inside a filter query: KNOWN FINDING process_selectors.order — the Verus
+        //  claim is restricted to union-free queries, the bounded back end covers the rest)
+        Test::RelQuery(v) => wf_segments(v@) && union_free(v@),
+        Test::AbsQuery(q) => wf_segments(q.segments@) && union_free(q.segments@),
         Test::Function(tf) => wf_fn(*tf),
     }
 }
@@ -66,7 +75,8 @@ pub open spec fn wf_cmp(c: Comparison) -> bool decreases c {
 pub open spec fn wf_comparable(c: Comparable) -> bool decreases c {
     match c {
         Comparable::Literal(l) => true,
-        Comparable::Function(tf) => wf_fn(tf),
+        // RFC 9535 2.4.3: only a ValueType function is comparable
+        Comparable::Function(tf) => wf_fn(tf) && !fn_is_logical(tf),
         Comparable::SingularQuery(q) => wf_sq(q),
     }
 }
@@ -81,23 +91,25 @@ pub open spec fn wf_sq(q: SingularQuery) -> bool {
 pub open spec fn singular_segs(v: Seq<Segment>) -> bool {
     forall|i: int| 0 <= i < v.len() ==> (#[trigger] v[i] matches Segment::Selector(s) && (s is Name || s is Index))
 }
+pub open spec fn test_singular(t: Test) -> bool {
+    match t { Test::RelQuery(v) => singular_segs(v@), Test::AbsQuery(q) => singular_segs(q.segments@), Test::Function(tf) => false }
+}
 pub open spec fn arg_value_typed(a: FnArg) -> bool {
     match a {
         FnArg::Literal(l) => true,
         FnArg::Filter(f) => false,
-        FnArg::Test(t) => match *t {
-            Test::RelQuery(v) => singular_segs(v@),
-            Test::AbsQuery(q) => singular_segs(q.segments@),
-            Test::Function(tf) => !fn_is_logical(*tf),
-        },
+        FnArg::Test(t) => test_singular(*t) || (*t matches Test::Function(tf) && !fn_is_logical(*tf)),
     }
+}
+pub open spec fn arg_logical_fn(a: FnArg) -> bool {
+    a matches FnArg::Test(t) && *t matches Test::Function(tf) && fn_is_logical(*tf)
 }
 pub open spec fn wf_fn(tf: TestFunction) -> bool decreases tf {
     match tf {
         TestFunction::Custom(name, args) => forall|i: int| 0 <= i < args@.len() ==> wf_arg(#[trigger] args@[i]),
         TestFunction::Length(a) => wf_arg(*a) && arg_value_typed(*a),
-        TestFunction::Value(a) => wf_arg(a),
-        TestFunction::Count(a) => wf_arg(a),
+        TestFunction::Value(a) => wf_arg(a) && !arg_logical_fn(a),
+        TestFunction::Count(a) => wf_arg(a) && !arg_logical_fn(a),
         TestFunction::Search(a, b) => wf_arg(a) && wf_arg(b) && arg_value_typed(a) && arg_value_typed(b),
         TestFunction::Match(a, b) => wf_arg(a) && wf_arg(b) && arg_value_typed(a) && arg_value_typed(b),
     }
@@ -159,6 +171,20 @@ pub open spec fn sel_filter<'a, T: Queryable>(f: Filter, n: Node<'a, T>, root: &
     kept(children(n).len() as int, |i: int| 0 <= i < children(n).len() && filter_truth(f, children(n)[i].inner, root))
         .map_values(|i: int| children(n)[i])
 }
+// named per-node functions (so that every use site builds the same term)
+pub open spec fn sel_fn<'a, T: Queryable>(s: Selector, root: &'a T) -> spec_fn(Node<'a, T>) -> Seq<Node<'a, T>>
+    decreases s, 2int
+{
+    |n: Node<'a, T>| rfc_sel(s, n, root)
+}
+pub open spec fn sels_fn<'a, T: Queryable>(ss: Seq<Selector>, root: &'a T) -> spec_fn(Node<'a, T>) -> Seq<Node<'a, T>>
+    decreases ss, 2int
+{
+    |n: Node<'a, T>| rfc_sels(ss, n, root)
+}
+pub open spec fn desc_fn<'a, T: Queryable>() -> spec_fn(Node<'a, T>) -> Seq<Node<'a, T>> {
+    |n: Node<'a, T>| descendants(n)
+}
 pub open spec fn rfc_sels<'a, T: Queryable>(ss: Seq<Selector>, n: Node<'a, T>, root: &'a T) -> Seq<Node<'a, T>>
     decreases ss, 0int
 {
@@ -168,9 +194,9 @@ pub open spec fn rfc_seg<'a, T: Queryable>(seg: Segment, input: Seq<Node<'a, T>>
     decreases seg, 0int
 {
     match seg {
-        Segment::Selector(s) => mapped(input, |n: Node<'a, T>| rfc_sel(s, n, root)),
-        Segment::Selectors(v) => mapped(input, |n: Node<'a, T>| rfc_sels(v@, n, root)),
-        Segment::Descendant(b) => rfc_seg(*b, mapped(input, |n: Node<'a, T>| descendants(n)), root),
+        Segment::Selector(s) => mapped(input, sel_fn(s, root)),
+        Segment::Selectors(v) => mapped(input, sels_fn(v@, root)),
+        Segment::Descendant(b) => rfc_seg(*b, mapped(input, desc_fn()), root),
     }
 }
 pub open spec fn rfc_segs<'a, T: Queryable>(segs: Seq<Segment>, input: Seq<Node<'a, T>>, root: &'a T) -> Seq<Node<'a, T>>
@@ -341,6 +367,11 @@ pub open spec fn fn_value<'a, T: Queryable>(tf: TestFunction, cur: &'a T, root: 
 pub open spec fn str_of<T: Queryable>(v: Option<T>) -> Option<Seq<char>> {
     match v { Some(x) => x.as_str_spec(), None => None }
 }
+pub open spec fn custom_value<'a, T: Queryable>(name: Seq<char>, args: Seq<FnArg>, cur: &'a T, root: &'a T) -> T
+    decreases args, 0int
+{
+    custom_result::<T>(name, Seq::new(args.len(), |i: int| if 0 <= i < args.len() { arg_denote(args[i], cur, root) } else { arbitrary() }))
+}
 // logical-typed functions: match, search, extension
 pub open spec fn fn_logical<'a, T: Queryable>(tf: TestFunction, cur: &'a T, root: &'a T) -> bool
     decreases tf, 1int
@@ -350,8 +381,7 @@ pub open spec fn fn_logical<'a, T: Queryable>(tf: TestFunction, cur: &'a T, root
             (Some(s), Some(p)) => regex_match(s, p, false), _ => false },
         TestFunction::Search(a, b) => match (str_of(arg_value(arg_denote(a, cur, root))), str_of(arg_value(arg_denote(b, cur, root)))) {
             (Some(s), Some(p)) => regex_match(s, p, true), _ => false },
-        TestFunction::Custom(name, args) =>
-            custom_result::<T>(name@, Seq::new(args@.len(), |i: int| if 0 <= i < args@.len() { arg_denote(args@[i], cur, root) } else { arbitrary() })).as_bool_spec() == Some(true),
+        TestFunction::Custom(name, args) => custom_value::<T>(name@, args@, cur, root).as_bool_spec() == Some(true),
         _ => false,
     }
 }
